@@ -1034,7 +1034,9 @@ def rule_dead(ctx):
         ctx.ob("dead-detect", pa, mon, "failure branch", "a non-zero exit code is treated as failure", False, "no branch reacts to a bad exit code")
         return
     for node, body, not_none in fb:
-        okk = _is_failure_test(node.test, not_none) and not_none
+        nn = not_none or (isinstance(node.test, ast.BoolOp) and isinstance(node.test.op, ast.And) and any(_is_not_none(v) for v in node.test.values))
+        okk = _is_failure_test(node.test, nn) and nn
+        not_none = nn
         ctx.ob("dead-detect", pa, node, "elif %s" % unparse(node.test, 60),
                "every non-zero, non-None exit code counts as failure (os._exit(1) and signals alike)", okk,
                "" if okk else ("test `%s` misses some non-zero exit codes" % unparse(node.test) if not_none else "exit code may still be None on this branch"))
@@ -1089,3 +1091,35 @@ def rule_dead(ctx):
     # the loop keeps polling while any worker is running
     ctx.ob("dead-detect", pa, mon, "monitor loop `%s`" % (unparse(mon.test, 40) if isinstance(mon, ast.While) else "for"),
            "the monitor polls until no worker is running", isinstance(mon, ast.While))
+    # the exit codes are inspected at least once AFTER the last worker has exited: either the loop is of the do-while kind
+    # (its condition is a flag recomputed by the inspecting pass itself), or an inspection follows the loop
+    final_ok, why = False, "monitor shape not understood"
+    if isinstance(mon, ast.While):
+        t = mon.test
+        if isinstance(t, ast.Name):
+            flag = t.id
+            # flag is reset to False before, and set True inside, the for that inspects the exit codes
+            resets = [n for n in mon.body if isinstance(n, ast.Assign) and isinstance(n.targets[0], ast.Name) and n.targets[0].id == flag
+                      and isinstance(n.value, ast.Constant) and n.value.value is False]
+            sets = [n for f in fors for n in ast.walk(f) if isinstance(n, ast.Assign) and isinstance(n.targets[0], ast.Name) and n.targets[0].id == flag
+                    and isinstance(n.value, ast.Constant) and n.value.value is True]
+            same_for = bool(fors) and any(node.lineno >= f.lineno and node.end_lineno <= f.end_lineno for f in fors for node, _, _ in fb)
+            if resets and sets and same_for and resets[0].lineno < fors[0].lineno:
+                final_ok, why = True, ""
+            else:
+                why = "the loop flag `%s` is not recomputed by the pass that inspects the exit codes" % flag
+        elif any(isinstance(n, ast.Attribute) and n.attr == "exitcode" for n in ast.walk(t)):
+            # condition looks at the exit codes directly: the body never runs once all workers have exited
+            mi = _top_index(pa, mon)
+            post = []
+            for s_ in pa.body()[mi + 1:]:
+                if isinstance(s_, (ast.For, ast.If)) and any(isinstance(n, ast.Attribute) and n.attr == "exitcode" for n in ast.walk(s_)) \
+                        and any(isinstance(n, ast.Raise) or (isinstance(n, ast.Call) and isinstance(n.func, ast.Attribute) and n.func.attr in ("kill", "close")) for n in ast.walk(s_)):
+                    post.append(s_)
+            if post:
+                final_ok, why = True, ""
+            else:
+                why = ("the loop stops as soon as no worker is running, so a worker that dies last (or the only worker) is never inspected: "
+                       "no exit-code check follows the loop")
+    ctx.ob("dead-detect", pa, mon, "final inspection after the last worker exited",
+           "every worker's exit code is inspected at least once after it has exited", final_ok, why)
